@@ -109,7 +109,12 @@ func runC10(rt *rapid.T, st *stats.Collector) {
 		st.Label("callbacks-fail-after-cancel")
 	}
 	if g.doErr == nil {
-		// The exchange completed before (or despite) the cancellation: nothing is required.
+		if g.canceled && remainingAtCancel > 0 && kind != "deadline" {
+			// cancel() returned while the server had not even sent its last packets: the query
+			// was cancelled in its middle, whatever arrived afterwards.
+			rt.Fatalf("the context was cancelled while the server still had %d packets to send, yet Do returned nil (no error, no Cancel, connection kept)\n%s", remainingAtCancel, describe())
+		}
+		// The exchange completed before the cancellation: nothing is required.
 		st.Label("outcome:completed")
 		return
 	}
